@@ -212,7 +212,9 @@ def run(rep, tier):
         "element (both outcomes of the debug test included), and self.files is not modified first. R32.6: the "
         "template of that format! is an `include_bytes!(\"{}\")` item whose hole is the loop element. R32.7: no "
         "function of wit-bindgen-rust / wit-bindgen-core that can reach a wit-parser file reader is reachable from the "
-        "macro (direct calls, function values, trait methods). R32.8: generate returns expand's result. "
+        "macro (direct calls, function values, trait methods). R32.8: generate returns expand's result. R32.9: the path handed to every reader is joined onto "
+        "CARGO_MANIFEST_DIR, so the recorded names are absolute and include_bytes! (which resolves relative names "
+        "against the invoking source file) names the file that was read. "
         "NOT decided: that wit-parser's PackageSourceMap::paths() lists every file push_path read (read in the "
         "wit-parser 0.257 source: a wasm/wat-encoded package under deps/ is read but not listed); files that did not "
         "exist when the macro ran; the macro-string feature's own include evaluation.",
@@ -234,6 +236,7 @@ def run(rep, tier):
     rep.guard("R32.6", "include_bytes template", lambda: r6(rep, c, st))
     rep.guard("R32.7", "generator crates", lambda: r7(rep, c))
     rep.guard("R32.8", "generate entry", lambda: r8(rep, c))
+    rep.guard("R32.9", "absolute paths", lambda: r9(rep, c))
 
 
 # ------------------------------------------------------------------------------------------------------------ R32.1
@@ -317,7 +320,8 @@ def r1_site(rep, st, f, call):
             recv.add((k, n, capture_index(proj) if k == "arg" else None))
         rep.ob("R32.1", f"{nm}: all tracking appends go to one vector", len(recv) == 1, f"{sorted(map(str, recv))}",
                f.loc(call.bb))
-        st["tracked"].setdefault(f.path, set()).update(recv)
+        if recv:
+            st["tracked"].setdefault(f.path, set()).update(recv)
         for x in f.calls():
             for i, a in enumerate(x.args):
                 k, n, proj = root(f, a)
@@ -344,7 +348,7 @@ def r2(rep, c, st):
         for call in reader_calls(f):
             n += 1
             rep.ob("R32.2", f"wit-parser reader {mir.norm(call.callee).split('::')[-1]} called from {short_fn(f)}",
-                   f.path in allowed and f.path in st.get("tracked", {}),
+                   f.path in allowed and bool(st.get("tracked", {}).get(f.path)),
                    "a wit-parser file read outside the tracked closure of parse_source", f.loc(call.bb))
         for call in std_reader_calls(f):
             n += 1
@@ -801,3 +805,41 @@ def r8(rep, c):
                bool(outs) and f.all_paths_pass(x.bb, f.returns(), outs), "", f.loc(x.bb))
     others = [g for g in c.fns.values() if g.path != f.path and g.calls("Config::expand")]
     rep.ob("R32.8", "Config::expand has no other caller", not others, f"{[short_fn(g) for g in others]}", "")
+
+
+# ------------------------------------------------------------------------------------------------------------ R32.9
+def r9(rep, c):
+    """The file names that end up in include_bytes! are the ones wit-parser was given: rooted at CARGO_MANIFEST_DIR."""
+    ps = c.fn("parse_source")
+    n = 0
+    for f in c.fns.values():
+        for call in reader_calls(f):
+            n += 1
+            nm = f"{mir.norm(call.callee).split('::')[-1]} in {short_fn(f)}"
+            cs, args = back_slice(f, call.args[1]) if len(call.args) > 1 else ({}, [])
+            joins = [j for j in cs.values() if j.matches("Path::join")]
+            rooted = []
+            for j in joins:
+                js, jargs = back_slice(f, j.args[0])
+                envs = [e for e in js.values() if e.matches("env::var")]
+                if f.path != ps.path:
+                    # receiver is a captured variable of parse_source: follow the capture
+                    for an, proj in jargs:
+                        cap = capture_index(list(proj))
+                        if an != 1 or cap is None:
+                            continue
+                        aggs = [s_["rv"] for b in sorted(ps.live) for s_ in ps.stmts(b)
+                                if s_["k"] == "=" and s_["rv"]["k"] == "agg" and s_["rv"].get("closure") == f.path]
+                        for rv in aggs:
+                            if cap < len(rv["ops"]):
+                                es, _ = back_slice(ps, rv["ops"][cap])
+                                envs += [(ps, e) for e in es.values() if e.matches("env::var")]
+                envs = [(f, e) if not isinstance(e, tuple) else e for e in envs]
+                if any(g.origin(e.args[0]).get("s") == "CARGO_MANIFEST_DIR" for g, e in envs):
+                    rooted.append(j)
+            rep.ob("R32.9", f"{nm}: the path read is joined onto CARGO_MANIFEST_DIR", bool(rooted),
+                   "a relative name would be recorded; include_bytes! resolves it against the invoking source file, not "
+                   "against the directory the read used", f.loc(call.bb))
+            rep.ob("R32.9", f"{nm}: every path to the read passes that join",
+                   bool(rooted) and f.set_dominates({j.bb for j in rooted}, call.bb), "", f.loc(call.bb))
+    rep.floor("R32.9", "reader sites checked for rooted paths", n, 1)
